@@ -17,7 +17,7 @@ PY = '/venv/bin/python'
 sys.path.insert(0, HERE)
 
 import wire  # noqa: E402
-from profiles import PROFILES, PROJ  # noqa: E402
+from profiles import PROFILES, PROJ, SS  # noqa: E402
 
 ALLOWED_AXIOMS = {'propext', 'Classical.choice', 'Quot.sound'}
 FORBIDDEN = re.compile(r'\b(sorry|admit|native_decide|bv_decide|implemented_by)\b|^\s*axiom\s|unsafe\s|maxHeartbeats\s+0')
@@ -162,8 +162,21 @@ def project(pid, line):
         out.append(d.get('enc', ''))
     st = d.get('st', '').split(',')
     out.append(','.join(st[i] for i in pr['st'] if i < len(st)))
+    ss = d.get('ss', '')
+    sel = SS.get(pid, [])
+    if sel is None:
+        out.append(ss)
+    elif sel and ss not in ('', '.', '?'):
+        out.append(';'.join(':'.join(x.split(':')[i] for i in sel if i < len(x.split(':'))) for x in ss.split(';')))
     out.append('|'.join(d.get('extra', [])))
     return out
+
+
+def cstate_of(line):
+    for part in line.split(' | '):
+        if part.startswith('st='):
+            return part.split(',')[2]
+    return '?'
 
 
 def run_programs(pid, seed, budget, model, deadline, oracle=None, stop_first=False, cfg_filter=None):
@@ -201,7 +214,7 @@ def run_programs(pid, seed, budget, model, deadline, oracle=None, stop_first=Fal
                     for e in obs['events']:
                         kn = e.split('(')[0]
                         stats['events_hist'][kn] = stats['events_hist'].get(kn, 0) + 1
-                    stats['distinct_ops'].add(hash((o, ol.split(' | ')[0], ol.split(' | ')[-1].split(',')[2])))
+                    stats['distinct_ops'].add(hash((o, ol.split(' | ')[0], cstate_of(ol))))
                 if ml is not None and obs is not None and first_mm is None and not r.unmodelled_at(idx):
                     if project(pid, ol) != project(pid, ml):
                         first_mm = idx
